@@ -206,9 +206,8 @@ class EVQEIndividual(BaseIndividual):
         # Remove the last layers
         layers: list[EVQECircuitLayer] = list(individual.layers)[0 : len(individual.layers) - n_layers]
         # Get the parameter values for the remaining layers
-        parameter_values: list[float] = list(individual.parameter_values)[
-            0 : individual.layer_parameter_indices[len(individual.layers) - n_layers][0]
-        ]
+        n_remaining_parameters: int = sum(layer.n_parameters for layer in layers)
+        parameter_values: list[float] = list(individual.parameter_values)[0:n_remaining_parameters]
 
         return EVQEIndividual(
             n_qubits=individual.n_qubits,
